@@ -9,6 +9,14 @@ def run(prop: str, tier: str) -> int:
         from . import props_engine
 
         return props_engine.run(prop, tier)
+    if prop in ("C19", "C20"):
+        from . import props_tree
+
+        return props_tree.run(prop, tier)
+    if prop == "C17":
+        from . import props_keyword
+
+        return props_keyword.run(prop, tier)
     raise SystemExit(f"no check registered for {prop}")
 
 
